@@ -35,6 +35,7 @@ func NewKeeper(
 	if addr := ak.GetModuleAddress(types.ModuleName); addr == nil {
 		panic("the TIBC nft-transfer module account has not been set")
 	}
+	nk = wrapTokenKeeper(nk)
 
 	return Keeper{
 		cdc:        cdc,
